@@ -6,7 +6,7 @@
 From Coq Require Import List NArith ZArith Lia.
 From Coq.Strings Require Import Byte.
 Import ListNotations.
-From BWLexer Require Import Utf8 Unicode Lexer LexerProofs.
+From BWLexer Require Import Utf8 Unicode Lexer LexerProofs CaseProofs.
 From BWLexer.Gen Require Import LexTablesGen.
 
 (* ---------------------------------------------------------------- termination / channel closed *)
@@ -82,6 +82,82 @@ Proof.
   - exact (proj1 (C16_spans_ordered go_uni inp)).
 Qed.
 Print Assumptions C16_lex_structure.
+
+(* ---------------------------------------------------------------- keywords regardless of letter case *)
+(* for EVERY entry (kw, k) of the keyword table generated from lexKeyword's EqualFold chain and EVERY spelling v of kw
+   in which any subset of the letters is capitalised, followed by the end of the input or by a rune that is not a
+   letter: the first token is k with text v.  (U: any unicode record that agrees with ASCII on ASCII.) *)
+Theorem C16_keywords_case : forall (U : uni), ascii_ok U ->
+  forall (kw : list byte) (k : N) (v rest_bytes : list byte),
+    In (kw, k) keywords ->
+    Forall2 (fun a b => a = b \/ (is_lower_z (bz b) = true /\ bz a = (bz b - 32)%Z)) v kw ->
+    match decode_all rest_bytes with [] => True | (r, _) :: _ => is_letter U r = false end ->
+    exists more, fst (lex_with U (v ++ rest_bytes)) = (k, 0, length v) :: more.
+Proof. exact keywords_case_bytes. Qed.
+Print Assumptions C16_keywords_case.
+
+(* the same at any point of a run: whenever lexToken is entered on such a spelling and the last token was not FILTER *)
+Theorem C16_keywords_case_anywhere : forall (U : uni), ascii_ok U ->
+  forall kw k v rr (l : lx),
+    In (kw, k) keywords ->
+    Forall2 (fun a b => a = b \/ (is_lower_z (bz b) = true /\ bz a = (bz b - 32)%Z)) v kw ->
+    match rr with [] => True | (r, _) :: _ => is_letter U r = false end ->
+    rest l = map (fun b => (bz b, 1)) v ++ rr -> mem_N (last l) last_filter_function = false ->
+    step U SToken l = ([], Some SKeyword, l) /\
+    step U SKeyword l = ([(k, start l, pos l + length v)], Some SSpace,
+                         mkLx rr (pos l + length v) (pos l + length v) k).
+Proof. exact keyword_steps. Qed.
+Print Assumptions C16_keywords_case_anywhere.
+
+(* ---------------------------------------------------------------- literal type names regardless of letter case *)
+(* "body"^^type:T with T any capitalisation of an entry of the generated literal type list, body ASCII without double
+   quote and backslash, followed by the end of input or a rune that is neither letter nor digit: one ItemLiteral
+   token spanning the whole lexeme.  Partial: the domain restricts the body (plain_body). *)
+Theorem C16_literal_type_case_partial : forall (U : uni), ascii_ok U ->
+  forall (body ty v rest_bytes : list byte),
+    Forall (fun b => (bz b < 128)%Z /\ bz b <> 34%Z /\ bz b <> 92%Z) body ->
+    In ty literal_types ->
+    Forall2 (fun a b => a = b \/ (is_lower_z (bz b) = true /\ bz a = (bz b - 32)%Z)) v ty ->
+    match decode_all rest_bytes with [] => True | (r, _) :: _ => (is_letter U r || is_digit U r)%bool = false end ->
+    exists more,
+      fst (lex_with U (x22 :: body ++ s_literalType ++ v ++ rest_bytes)) =
+      (ItemLiteral, 0, S (length body) + length s_literalType + length v) :: more.
+Proof. exact literal_type_case_bytes. Qed.
+Print Assumptions C16_literal_type_case_partial.
+
+(* the hypotheses are satisfiable: go_uni agrees with ASCII; SeLeCT is a variant of select; "a b"^^type:InT64 *)
+Theorem C16_go_uni_ascii_ok : ascii_ok go_uni.
+Proof.
+  assert (H : forallb (fun r => Bool.eqb (is_letter go_uni r) (ascii_letter r) && Bool.eqb (is_digit go_uni r) (ascii_digit r) &&
+                                Bool.eqb (is_space go_uni r) (ascii_space r) && Z.eqb (to_lower go_uni r) (ascii_lower r))%bool
+                      (map Z.of_nat (seq 0 128)) = true) by (vm_compute; reflexivity).
+  intros r Hr. rewrite forallb_forall in H. specialize (H r).
+  assert (Hin : In r (map Z.of_nat (seq 0 128))).
+  { apply in_map_iff. exists (Z.to_nat r). split; [lia|]. apply in_seq. lia. }
+  apply H in Hin. repeat (apply andb_prop in Hin; destruct Hin as [Hin ?]).
+  repeat match goal with H : Bool.eqb _ _ = true |- _ => apply Bool.eqb_prop in H end.
+  apply Z.eqb_eq in H0. auto.
+Qed.
+Print Assumptions C16_go_uni_ascii_ok.
+
+Example C16_keywords_case_example :
+  exists more, lex [x53;x65;x4c;x65;x43;x54;x20;x3f;x78] = (ItemQuery, 0, 6) :: more.
+Proof.
+  apply (C16_keywords_case go_uni C16_go_uni_ascii_ok [x73;x65;x6c;x65;x63;x74] ItemQuery [x53;x65;x4c;x65;x43;x54] [x20;x3f;x78]).
+  - vm_compute. tauto.
+  - repeat constructor; (now left) || (right; split; reflexivity).
+  - reflexivity.
+Qed.
+
+Example C16_literal_type_case_example :
+  exists more, lex ([x22;x61;x20;x62] ++ s_literalType ++ [x49;x6e;x54;x36;x34] ++ [x3b]) = (ItemLiteral, 0, 17) :: more.
+Proof.
+  apply (C16_literal_type_case_partial go_uni C16_go_uni_ascii_ok [x61;x20;x62] [x69;x6e;x74;x36;x34] [x49;x6e;x54;x36;x34] [x3b]).
+  - repeat constructor; vm_compute; congruence.
+  - vm_compute. tauto.
+  - repeat constructor; (now left) || (right; split; reflexivity).
+  - reflexivity.
+Qed.
 
 (* ---------------------------------------------------------------- examples: the statements are about real runs *)
 Example C16_example_select :
